@@ -224,7 +224,6 @@ Proof.
     apply negb_false_iff, subseteqb_true in H1. apply negb_false_iff, subseteqb_true in H2.
     destruct (alloc_shared t s (g_pool g) <? 1000 * csize ex + g_portion g) eqn:Hcap; [discriminate|].
     destruct (negb (spare_allb t s (g_pool g) (g_excl g))); [discriminate|].
-    destruct (_ && _); [discriminate|].
     intros [= <-]. split; [reflexivity|]. exists (g_portion g). split; [exact Hpos|]. split; [intros q; reflexivity|].
     intros a Ha Hlt.
     assert (Heq : free_shar s a ∖ g_excl g = free_shar s a ∖ ex).
@@ -345,7 +344,7 @@ Proof.
   assert (g0 = g).
   { revert H Hg. unfold ta_reserve. destruct (g_type g).
     - destruct (negb _); [discriminate|]. destruct (negb _); [discriminate|]. destruct (_ <? _); [discriminate|].
-      destruct (negb (spare_allb _ _ _ _)); [discriminate|]. destruct (_ && _); [discriminate|].
+      destruct (negb (spare_allb _ _ _ _)); [discriminate|].
       intros [= <-]. cbn [grants set_grants account_alloc]. intros Hg.
       assert (Hl := f_equal (fun m => m !! cid) Hg). cbn in Hl. rewrite !lookup_insert in Hl. congruence.
     - destruct (negb _); [discriminate|]. destruct (_ && _); [discriminate|].
